@@ -295,7 +295,50 @@ func jsonTexts(g *hx.Gen) []string {
 		`{"ifVer":7,"username":"u","hostname":"h","sshClientVersion":"8.1","caPubKeyAlgo":3,"signatureAlgo":-1}`,
 		`{"ifVer":7,"username":"u","hostname":"h","sshClientVersion":"8.1"} req=u@h`,
 		`{"ifVer":7,"username":"req=x@y","hostname":"h","sshClientVersion":"8.1","touchlessSudo":[]}`,
+		`{"ifVer":7,"username":"alice","hostname":"laptop","exts":{"note":"x req=root@bastion y"}}`,
+		`{"username":"a req=root@bastion b","hostname":"h"}`,
+		`{"hostname":"h","sshClientVersion":"8.1","exts":{"k":" req=u@h SSHClientVersion=8.1 "}}`,
 	}
+}
+
+// crossText: a JSON attribute object, complete or lacking / emptying required members, whose
+// string values carry text that the legacy parser would accept (and vice versa nothing): the
+// two formats must never be confused.
+func crossText(g *hx.Gen) string {
+	legacyish := []string{"x req=root@bastion.example.com y", "req=u@h", " SSHClientVersion=8.1 req=a@b ", "IFVer=6 req=alice@host1 HardKey=true",
+		"req=alice@host1 TouchlessSudoHosts=h1 TouchlessSudoTime=30", "a req=b", "req=@", "q req=u@h\tHardKey=true"}
+	val := func() string {
+		if g.Intn(3) == 0 {
+			return g.Pick([]string{"u", "h", "8.1", "", "alice"})
+		}
+		return g.Pick(legacyish)
+	}
+	q := func(s string) string { b, _ := json.Marshal(s); return string(b) }
+	var ms []string
+	for _, k := range []string{"username", "hostname", "sshClientVersion"} {
+		switch g.Intn(5) {
+		case 0: // omitted
+		case 1:
+			ms = append(ms, q(k)+`:""`)
+		default:
+			v := val()
+			if k == "sshClientVersion" && g.Bool() {
+				v = "8.1"
+			}
+			ms = append(ms, q(k)+":"+q(v))
+		}
+	}
+	if g.Bool() {
+		ms = append(ms, `"ifVer":`+g.Pick([]string{"7", "6", "0", "8"}))
+	}
+	if g.Bool() {
+		ms = append(ms, `"exts":{`+q(g.Pick([]string{"note", "req=u@h", "k"}))+":"+q(val())+"}")
+	}
+	if g.Intn(3) == 0 {
+		ms = append(ms, `"touchlessSudo":{"hosts":`+q(val())+`,"time":5}`)
+	}
+	g.R.Shuffle(len(ms), func(i, j int) { ms[i], ms[j] = ms[j], ms[i] })
+	return g.Pick([]string{"", " ", "\n"}) + "{" + strings.Join(ms, g.Pick([]string{",", ", ", " , "})) + "}" + g.Pick([]string{"", " ", "\n"})
 }
 
 func mutateMsg(g *hx.Gen, text string) string {
@@ -368,6 +411,9 @@ func genMsg(g *hx.Gen, out *hx.Out) {
 	}
 	for i := 0; i < *hx.Count/10; i++ {
 		dec(string(g.Bytes(g.Intn(30))))
+	}
+	for i := 0; i < *hx.Count/5; i++ {
+		dec(crossText(g))
 	}
 }
 
